@@ -14,6 +14,8 @@ SPEC = {
         {"name": "config", "pkg": "./config", "search_cases": 3000, "timeout_quick": 300, "timeout_thorough": 900},
         # the real application in-process on loopback, real time: few scenarios; the widened search re-runs with 4 random ones
         {"name": "reload", "pkg": "./reload", "search_cases": 4, "timeout_quick": 400, "timeout_thorough": 900, "timeout_search": 400},
+        # delivering notifications must not change the loaded configuration (text served by the status API, secrets)
+        {"name": "notifyleak", "pkg": "./notifyleak", "search_cases": 6, "timeout_quick": 200},
     ],
     "rule": "generated raw configurations (routing trees depth<=3 with receivers/matchers/group_by incl. explicit [] and '...', mute/active intervals, "
             "durations; receivers; time intervals; inhibit rules; global block; 0-2 injected faults out of 24 kinds) -> YAML -> real config.Load: accept/reject "
